@@ -374,6 +374,10 @@ def pin_trace(mod, plan, sig):
 
 # ------------------------------------------------------------------ evidence
 def write_evidence(mod, tier, base, agg, wall, nviol, extra=None):
+    if os.environ.get("VERIF_NO_EVIDENCE") or os.path.realpath(
+            os.environ.get("VERIF_REPO", "/repo")) != "/repo":
+        # evidence describes /repo itself, never a scratch tree
+        return
     os.makedirs(os.path.join(VERIF, "evidence"), exist_ok=True)
     rph = int(agg.runs / wall * 3600) if wall > 0 else 0
     stats = dict(sorted(agg.stats.items()))
